@@ -478,7 +478,9 @@ def classify(case, obs):
       * initial-head-empty-or-jump: initial values, only when the proven guard Wf.guard_C07_initial_head (mirrored by g_ini,
         cross-checked against the Coq definition in check_corr) is false at these parameters;
       * final-tail-empty: final values (sample at the very end in the time dependent scalar stream; otherwise the comparison
-        with the denoted end voltage made in Coq), only when Wf.guard_C07_final_tail (g_tail) is false.
+        with the denoted end voltage made in Coq), only when Wf.guard_C07_final_tail (g_tail) is false; a padded region that
+        cannot be built only when, in addition, final_values does not evaluate (the never instantiated last part mentions a
+        missing parameter: thorough-tier case of round 5).
     When no Python-visible clause fails, the failure is check_spec's alone (final value vs denoted end voltage, padded
     duration, or a template Spec.denote gives no meaning): explained only by final-tail-empty outside its guard or by
     negative-duration-empty on a template containing such a part."""
@@ -507,8 +509,10 @@ def classify(case, obs):
                 fid = 'arith-over-parallel-order' if c in ov else None if ok_ini else 'initial-head-empty-or-jump'
             elif kind == 'fin':
                 fid = None if ok_tail else 'final-tail-empty'
-            else:                   # the padded region never plays anything but final_values on the unchanged code
-                fid = None
+            else:
+                # the padded region never plays anything but final_values on the unchanged code; it cannot be built at all
+                # when final_values - taken from a last part that is never instantiated (final-tail-empty) - do not evaluate
+                fid = 'final-tail-empty' if not ok_tail and obs['ch'][c]['sfin'] is None else None
             if fid is None:
                 return None
             used.append(fid)
@@ -1613,6 +1617,13 @@ def known_class_family():
         pr, 'ini-first-iteration-empty')
     put({'k': 'for', 'i': 'i1', 'start': C(2), 'stop': C(-1), 'step': C(-1), 'b': cst(V('i1'), A=add(V('i1'), C(1)), B=V('a'))},
         pr, 'tail-last-iteration-empty')
+    # a never instantiated LAST / FIRST part that mentions a parameter nobody provides (malformed stream): the program exists,
+    # final_values / initial_values do not evaluate, pad_to cannot be built (found by the thorough tier of round 5)
+    ghost = {'k': 'for', 'i': 'i2', 'start': C(3), 'stop': C(5), 'step': C(-1), 'b': cst(C(1), A=add(V('i2'), V('q')), B=V('q'))}
+    for nm, ps in (('last', [X, ghost]), ('first', [ghost, X]), ('middle', [X, ghost, Y])):
+        t = {'k': 'seq', 'ps': ps}
+        cs.append({'kind': 'pulse', 'pt': t, 'params': {'a': '3/4'}, 'pad': '1', 'src': 'malformed',
+                   'shapes': ['known-class:ghost-' + nm]})
     return cs
 
 
@@ -1627,10 +1638,10 @@ def gen_cases(rng, tier, ctx):
         nf = 15
     else:
         cases += shared_body_forests(rng, 8) + exhaustive_pair_forests(rng)
-        nf = 400
+        nf = 320
     for k in range(nf):
         cases += random_forest(rng, 2 if k % 3 == 0 else 3)
-    n = {'quick': 220, 'thorough': 4000}[tier]
+    n = {'quick': 220, 'thorough': 3200}[tier]
     if tier == 'quick':
         sweep = [c for c in range_sweep(3) if rng.random() < 0.4]
         sweep += [c for c in range_sweep(4, -4, WRAPPERS[1:]) if rng.random() < 0.012]
@@ -1639,7 +1650,7 @@ def gen_cases(rng, tier, ctx):
         # exhaustive: |start|, |stop| <= 4 (stop up to 5), step in +-{1,2,3}, under every loop-carrying class
         sweep = range_sweep(4, -4, WRAPPERS) + range_sweep(7, -1, ('bare',)) + symbolic_range_sweep(4)
     cases += sweep
-    cases += tdarith_cases(rng, 40 if tier == 'quick' else 600)
+    cases += tdarith_cases(rng, 40 if tier == 'quick' else 500)
     for k in range(n):
         depth = 1 if k % 7 == 0 else 2 if k % 3 == 0 else rng.choice([3, 3, 4])
         c = random_case(rng, depth)
